@@ -219,6 +219,96 @@ func c04Padded(c *rt.Ctx, sub int, r *rand.Rand, t reflect.Type, v reflect.Value
 	}
 }
 
+// c04LargeOffsets: members behind a large leading member, so that their offsets in the struct pass
+// 2^8, 2^16 and 2^20 (widths an offset could be kept in); the leading member is ignored, encoded as a
+// byte string, or a nested array, and the members behind it cover scalars, strings, pointers,
+// containers and interfaces.
+func c04LargeOffsets(c *rt.Ctx, sub0 int) {
+	sub := sub0
+	for _, pad := range []int{250, 256, 65528, 65536, 65537, 70000, 1 << 20} {
+		for variant := 0; variant < 3; variant++ {
+			sub++
+			var lead reflect.StructField
+			switch variant {
+			case 0:
+				lead = reflect.StructField{Name: "Pad", Type: reflect.ArrayOf(pad, reflect.TypeOf(uint8(0))), Tag: `json:"-"`}
+			case 1:
+				lead = reflect.StructField{Name: "Pad", Type: reflect.ArrayOf(pad, reflect.TypeOf(uint8(0))), Tag: `json:"pad"`}
+			default:
+				if pad%8 != 0 || pad > 70000 {
+					continue
+				}
+				lead = reflect.StructField{Name: "Pad", Type: reflect.ArrayOf(pad/8, reflect.TypeOf([2]int32{})), Tag: `json:"pad"`}
+			}
+			if variant == 1 && pad > 70000 {
+				continue
+			}
+			t := reflect.StructOf([]reflect.StructField{lead,
+				{Name: "Score", Type: reflect.TypeOf(int64(0))},
+				{Name: "Level", Type: reflect.TypeOf(int8(0)), Tag: `json:"level,omitempty"`},
+				{Name: "Done", Type: reflect.TypeOf(false)},
+				{Name: "Name", Type: reflect.TypeOf("")},
+				{Name: "P", Type: reflect.TypeOf((*int)(nil))},
+				{Name: "M", Type: reflect.TypeOf(map[string]int(nil))},
+				{Name: "S", Type: reflect.TypeOf([]string(nil))},
+				{Name: "I", Type: reflect.TypeOf((*any)(nil)).Elem()},
+				{Name: "Q", Type: reflect.TypeOf(uint16(0)), Tag: `json:"q,string"`},
+				{Name: "In", Type: reflect.TypeOf(struct {
+					A float64
+					B []byte
+				}{})},
+			})
+			v := reflect.New(t).Elem()
+			n := 7
+			v.Field(1).SetInt(123456789 + int64(pad))
+			v.Field(2).SetInt(-7)
+			v.Field(3).SetBool(true)
+			v.Field(4).SetString(fmt.Sprint("name-", pad))
+			v.Field(5).Set(reflect.ValueOf(&n))
+			v.Field(6).Set(reflect.ValueOf(map[string]int{"k": pad}))
+			v.Field(7).Set(reflect.ValueOf([]string{"a", "b"}))
+			v.Field(8).Set(reflect.ValueOf("iface"))
+			v.Field(9).SetUint(65535)
+			v.Field(10).Field(0).SetFloat(2.5)
+			v.Field(10).Field(1).SetBytes([]byte{1, 2, 3})
+			if variant != 0 {
+				// a few marked cells of the leading member
+				if variant == 1 {
+					v.Field(0).Index(0).SetUint(1)
+					v.Field(0).Index(pad - 1).SetUint(255)
+				} else {
+					v.Field(0).Index(pad/8 - 1).Index(1).SetInt(-5)
+				}
+			}
+			if !c.Cur(sub, fmt.Sprintf("shapes=core\nmembers behind a %d-byte leading member (variant %d)", pad, variant)) {
+				continue
+			}
+			c04Case(c, sub, t, v, "")
+			// and against encoding/json byte for byte (compact form)
+			gb, gerr := gojson.Marshal(v.Interface())
+			sb, serr := stdjson.Marshal(v.Interface())
+			c.Eval(1)
+			if (gerr != nil) != (serr != nil) || !bytes.Equal(gb, sb) {
+				d := firstDiff(gb, sb)
+				lo, hi := d-40, d+40
+				if lo < 0 {
+					lo = 0
+				}
+				cut := func(b []byte) []byte {
+					if hi > len(b) {
+						return b[lo:]
+					}
+					return b[lo:hi]
+				}
+				c.Violate(rt.Violation{Monitor: "roundtrip", Entry: "Marshal", Kind: "differs-from-reference", Ctx: fmt.Sprintf("large-offset:%d", pad),
+					Detail: fmt.Sprintf("errors %v / %v; outputs differ at byte %d: go-json …%s… encoding/json …%s…", gerr, serr, d, rt.Q(cut(gb)), rt.Q(cut(sb))), Sub: sub})
+			}
+			c.Obs("large_offset_structs", 1)
+			c.NonTrivial("large-offset", fmt.Sprint(pad, variant))
+		}
+	}
+}
+
 func init() {
 	register(&Prop{
 		ID: "C04",
@@ -230,6 +320,9 @@ func init() {
 		},
 		Run: func(c *rt.Ctx) {
 			rv := c.RNG(0)
+			if c.Idx%512 == 9 {
+				c04LargeOffsets(c, 100000)
+			}
 			for k := 0; k < 64; k++ {
 				o := gen.TypeOpts{FeatureProb: 15}
 				var t reflect.Type
